@@ -295,6 +295,45 @@ def classify_schema(tr: Tr, script: str, where: str):
     return res, tinfo
 
 
+def batch_shape(base_cls) -> dict:
+    """Database.__enter__: the one assignment to self._pending_commits is `max(1, self._pending_commits)` (keeps the
+    count of an enclosing block) or the constant 1 (forgets it).  Database.__exit__: the counter is taken to 0 (tuple
+    swap or plain assignment) before / after the `self.commit()` of the no-exception path, which is guarded by
+    `pending_commits > 1` (or `>= 2`)."""
+    fns = {n.name: n for n in base_cls.body if isinstance(n, ast.FunctionDef)}
+    ent, ext = fns.get("__enter__"), fns.get("__exit__")
+    if ent is None or ext is None:
+        raise TranslatorError("Database.__enter__/__exit__ not found")
+    assigns = [n for n in ast.walk(ent) if isinstance(n, ast.Assign) and any(_is_self_attr(t, "_pending_commits")
+                                                                              for t in n.targets)]
+    if len(assigns) != 1:
+        raise TranslatorError(f"Database.__enter__: {len(assigns)} assignments to _pending_commits")
+    val = ast.unparse(assigns[0].value).replace(" ", "")
+    if val in ("max(1,self._pending_commits)", "max(self._pending_commits,1)"):
+        keeps = True
+    elif val == "1":
+        keeps = False
+    else:
+        raise TranslatorError(f"Database.__enter__: unrecognised counter update `{val}`")
+    reset_line = commit_line = None
+    guard = None
+    for n in ast.walk(ext):
+        if isinstance(n, ast.Assign):
+            src = ast.unparse(n).replace(" ", "")
+            if src in ("self._pending_commits,pending_commits=(0,self._pending_commits)",
+                       "self._pending_commits,pending_commits=0,self._pending_commits", "self._pending_commits=0"):
+                reset_line = n.lineno if reset_line is None else min(reset_line, n.lineno)
+        if isinstance(n, ast.If) and any(isinstance(x, ast.Call) and _is_self_attr(x.func, "commit")
+                                         for b in n.body for x in ast.walk(b)) and "pending_commits" in ast.unparse(n.test):
+            guard = ast.unparse(n.test).replace(" ", "").replace("self._", "")
+            commit_line = n.lineno
+    if reset_line is None or commit_line is None:
+        raise TranslatorError("Database.__exit__: counter reset or guarded self.commit() not found")
+    if guard not in ("pending_commits>1", "pending_commits>=2"):
+        raise TranslatorError(f"Database.__exit__: unrecognised commit guard `{guard}`")
+    return {"enter_keeps": keeps, "exit_resets_first": reset_line < commit_line}
+
+
 def lean_stmt(s) -> str:
     return "." + s[0] + ("" if len(s) == 1 else f" {s[1]}")
 
@@ -453,6 +492,7 @@ def translate() -> tuple[str, dict]:
     if len(idle) != 1 or len(deferred) != 1:
         raise TranslatorError(f"Database.commit: {len(idle)} idle and {len(deferred)} deferred paths")
     meta["commit"] = {"idle": idle[0], "deferred": deferred[0]}
+    meta["batch"] = batch_shape(base_cls)
     handlers = version_handlers(base_cls)
     meta["version_handlers"] = handlers
     # durability pragmas as written in _initial_statements (string constants handed to cursor.execute)
@@ -564,7 +604,9 @@ def translate() -> tuple[str, dict]:
            "/-- Database.commit, one primitive list per outcome of `if self._pending_commits:` -/",
            "def commitMethod : CommitMethod :=",
            f"  {{ idle := {lean_list([lean_prim(p) for p in meta['commit']['idle']])},",
-           f"    deferred := {lean_list([lean_prim(p) for p in meta['commit']['deferred']])} }}",
+           f"    deferred := {lean_list([lean_prim(p) for p in meta['commit']['deferred']])},",
+           f"    enterKeeps := {'true' if meta['batch']['enter_keeps'] else 'false'},     -- Database.__enter__",
+           f"    exitResetsFirst := {'true' if meta['batch']['exit_resets_first'] else 'false'} }}   -- Database.__exit__",
            "",
            "/-- every insert_* method of IdentityDatabase and AttestationsDB, one primitive list per path -/",
            "def insertMethods : List Method := [",
